@@ -279,7 +279,8 @@ func judge(c Case, o Obs) []verdict {
 	case positive:
 		f := c.facts()
 		shortcut := c.Entry == "shortcut"
-		mustFail := len(f.curH) <= mx && f.reach < mn && !shortcut
+		// (a "shortcut" request may also be treated as a normal request)
+		mustFail := len(f.curH) <= mx && f.reach < mn
 		if o.Failed {
 			if !mustFail {
 				out = append(out, verdict{"failed-although-min-reachable", fmt.Sprintf("healthy holders %v, addable %d, min %d: request failed: %s", f.curH, len(f.A), mn, o.Err)})
